@@ -19,7 +19,7 @@ TRUSTED = ['Lean 4.33 kernel + Mathlib v4.33 (axioms: propext, Classical.choice,
 ASSUMPTIONS = ['|p| <= 10, rotation angle <= pi-1e-3']
 RULE = ('poses from pose classes with positions up to 10 (mirror planes / reference frames away from the origin), non-collinear point triples, deltas in (0,1], step counts 2..200, '
         'point counts 1..2000, angles in [-50,50]; distinct = distinct (function, input); non-trivial = rotation part non-zero or position non-zero')
-SAMPLED = ['twistToGoal exponentiates onto the goal when the relative rotation is exactly a half turn (below pi it is a theorem)', 'closeArcGap advances by delta in arc distance (implementation only)',
+SAMPLED = ['closeArcGap advances by delta in arc distance (implementation only)',
            'chain / numerical Jacobians equal the analytic ones (implementation only, 1e-5)', 'rotationFromVector (optimiser, 1e-5)']
 
 
